@@ -389,6 +389,65 @@ def exec_case(ctx, case: Dict[str, Any]) -> None:
                        "callbacks": [(round(e["t"], 3), e["args"]) for e in cb_log]})
 
 
+class StallingSend:
+    """Write stream that takes the first `free` messages and then does not complete a send until time `until`."""
+
+    def __init__(self, inner, free: int, until: float, loop):
+        self._inner, self._free, self._until, self._loop, self.n = inner, free, until, loop, 0
+
+    async def send(self, item):
+        self.n += 1
+        if self.n > self._free:
+            await vsleep_until(self._until)
+        return await self._inner.send(item)
+
+    def __getattr__(self, name):
+        return getattr(self._inner, name)
+
+
+def exec_stalled_writer(ctx, case: Dict[str, Any]) -> None:
+    """The peer has read the request and then stops reading: whatever the call writes next (the cancelled notification)
+    blocks.  The request must still end no later than its timeout."""
+    from chuk_mcp.protocol.messages.send_message import send_message, CancellationToken
+    tc, T, until = case["tc"], case["T"], case["stall_until"]
+
+    async def main():
+        loop = asyncio.get_running_loop()
+        pipe = Pipe(buffer=1000)
+        token = CancellationToken()
+        write = StallingSend(pipe.write, case.get("free", 1), until, loop)
+
+        async def canceller():
+            await vsleep_until(tc)
+            token.cancel()
+        ct = asyncio.create_task(canceller())
+        t0 = loop.time()
+        try:
+            out = ("return", await send_message(pipe.read, write, "tools/call", {"name": "slow"}, timeout=T, cancellation_token=token))
+        except BaseException as e:  # noqa
+            if isinstance(e, (KeyboardInterrupt, SystemExit)):
+                raise
+            out = ("raise", e)
+        dur = loop.time() - t0
+        ct.cancel()
+        pipe.close()
+        return out, dur
+    try:
+        (out, dur), _ = run_virtual(main, max_iterations=300_000)
+    except HangDetected as e:
+        ctx.violation("hang_or_no_deadline", f"stalled writer: {e}", case)
+        return
+    ctx.count("outcomes")
+    ctx.count("stalled_writer_requests")
+    if dur > T + EPS:
+        ctx.violation("deadline_overrun", f"peer stopped reading after the request; token fired at {tc}; the call ended with "
+                      f"{out[1]!r} after {dur}s (timeout {T})", case)
+    if out[0] == "return":
+        ctx.violation("unexpected_result", f"stalled writer: returned {out[1]!r} although nothing was answered", case)
+    ctx.record(case, shape=[out[0], type(out[1]).__name__, round(dur, 3)], nontrivial=True, cls="stalled_writer",
+               sample={"case": case, "outcome": type(out[1]).__name__, "duration": dur})
+
+
 def exec_shared_token(ctx, case: Dict[str, Any]) -> None:
     """One CancellationToken governing several requests: k requests in flight on separate connections when it is
     triggered, and m further requests started afterwards with the (already triggered) token."""
@@ -464,6 +523,13 @@ def exec_shared_token(ctx, case: Dict[str, Any]) -> None:
 
 
 def run(ctx):
+    for tc in (0.2, 0.6, 0.95):
+        for T in (1.0, 1.3):
+            for until in (T + 0.5, T + 5.0):
+                for free in (1, 0):
+                    case = {"stalled_writer": True, "tc": tc, "T": T, "stall_until": until, "free": free}
+                    if ctx.mine():
+                        exec_stalled_writer(ctx, case)
     for kk, mm in ((2, 0), (3, 0), (1, 1), (1, 2), (2, 1), (0, 2)):
         for tc in (0.1, 0.3, 0.5, 0.75):
             case = {"shared_token": True, "concurrent": kk, "later": mm, "tc": tc}
@@ -479,6 +545,9 @@ def run(ctx):
 
 
 def replay(ctx, case):
+    if case.get("stalled_writer"):
+        exec_stalled_writer(ctx, case)
+        return
     if case.get("shared_token"):
         exec_shared_token(ctx, case)
         return
